@@ -131,13 +131,14 @@ def assign_buf_variable_names(attrs, fmt):
 
 def compute_return_prefix(arg, local_var):
     """Compute how to access variable: dereference, address, as-is"""
+    # A reference is returned as a pointer from the C wrapper.
     if local_var == "scalar":
-        if arg.is_pointer():
+        if arg.is_indirect():
             return "&"
         else:
             return ""
     elif local_var == "pointer":
-        if arg.is_pointer():
+        if arg.is_indirect():
             return ""
         else:
             return "*"
